@@ -54,7 +54,7 @@ def run(ctx):
 
 def replay(ctx, payload):
     inp = payload["input"]
-    if "text" not in inp:
+    if "text" not in inp or "opdecls" in inp:
         from props import exprgen
         return exprgen.replay_typed(ctx, inp)
     spec = G.LangSpec([(n, v, p) for n, v, p in inp["lang"]])
